@@ -100,6 +100,39 @@ def judge(case, out):
     return fails
 
 
+def judge_disabled_stays_out(case, by_case):
+    """a child that answered Disable stays out of the poller until the parent is registered (enabled) again: a later parent
+    reregistration must not register it. The observations of each single operation are obtained by comparing a case with its own
+    prefixes, which are cases of the same run (the sequences are enumerated prefix-closed)."""
+    ws = case.split()
+    ops = ws[1:]
+    if not proto_ok(ops):
+        return []
+    outs = []
+    for n in range(len(ops) + 1):
+        o = by_case.get(" ".join(ws[:1 + n]))
+        if o is None and n == 0:
+            o = by_case.get(ws[0] + " ", " | ")
+        if o is None:
+            return []
+        outs.append(o.split("|")[0].split())
+    disabled = None
+    for n, op in enumerate(ops):
+        delta = outs[n + 1][len(outs[n]):]
+        if outs[n + 1][:len(outs[n])] != outs[n]:
+            return []
+        if op == "evD":
+            fwd = [t for t in delta if t[0] == "F"]
+            disabled = fwd[0][1:] if fwd else disabled
+        elif op == "reg" or op in ("rm", "rp") or op.startswith("e") and op not in ("evD",):
+            if op == "reg" or op in ("rm", "rp") or op[-1] in "mp":
+                disabled = None
+        elif op == "rereg" and disabled is not None:
+            if ("G%s:1" % disabled) in delta:
+                return ["disabled-child-registered-again: child %s answered Disable, yet a later reregistration of the parent (operation %d) registered it again" % (disabled, n + 1)]
+    return []
+
+
 def main(tier, seed):
     chk = vlib.Check("C18", tier, seed)
     st = vlib.standard_front(chk)
@@ -115,10 +148,11 @@ def main(tier, seed):
     model, mlog = vlib.run_model(["transient"], cases)
     diffs, bad, known_hit = [], [], False
     nproto = 0
+    by_case = dict(zip(cases, impl))
     for c, i, m in zip(cases, impl, model):
         if i != m.rsplit(" | proto=", 1)[0]:
             diffs.append((c, i, m))
-        fs = judge(c, i)
+        fs = judge(c, i) + judge_disabled_stays_out(c, by_case)
         if proto_ok(c.split()[1:]):
             nproto += 1
         if fs:
